@@ -611,6 +611,13 @@ func mkEnv(i int, out *runOut, mu *sync.Mutex) *env.Env {
 	e.Define("libpath14", libFile14)
 	// a name the host binds to nil: one more per-environment binding
 	e.Define("hnil", nil)
+	// ... through every door a host has: the reflect-level calls with the package's own nil value
+	switch i % 3 {
+	case 1:
+		e.SetValue("hnil", env.NilValue)
+	case 2:
+		e.DefineValue("hnil", env.NilValue)
+	}
 	if i%2 == 0 {
 		e.Define("w0", float64(1.5))
 	} else {
